@@ -508,6 +508,9 @@ package fpgo
 //@   opt callbacks=effectful
 //@   opt effects=trace
 //@   opt lockguard=opCh:closedM;resultCh:closedM
+// the done flag is published BEFORE closedM is taken: a sender may be parked in receive() holding closedM on a full opCh,
+// and IsDone / doCloseSafe must see "done" without waiting for it
+//@   opt set-outside-lock=isClosed:closedM
 //@   modifies corSelf
 //@   requires corSelf != nil
 //@   ensures closed: corSelf.isClosed && forall(k, old(tr_len), tr_len, tr_kind[k] == 6 && (tr_obj[k] == corSelf.resultCh || tr_obj[k] == corSelf.opCh)) && tr_len == old(tr_len) + ite(corSelf.resultCh != nil, 1, 0) + ite(corSelf.opCh != nil, 1, 0)
